@@ -368,8 +368,8 @@ PROPS = {
     "C14": {
         "level": "exploration",
         "jobs": c14_jobs,
-        "rule": "for RelocatableVec, RelocatableQueue, RelocatableSlotMap, RelocatableFlatMap, RelocatableString, UniqueIndexSet, RobustUniqueIndexSet, RelocatableIndexQueue, RelocatableSafelyOverflowingIndexQueue, RelocatableBitSet and mpmc::Container (capacity 1-4): the structure is built by new_uninit + init(bump allocator) inside one block; a random history runs against a std model and after every operation, with probability 1/4, the whole block is byte-copied to a fresh allocation at another in-page offset, the old block is poisoned with 0xAA and freed, and the history continues on the copy (debug, release, ASan, Miri). Non-trivial = a history with at least one relocation; distinct = distinct (structure, history).",
-        "assumptions": ["relocation = byte-for-byte copy of header + payload as a whole (what another process mapping the segment sees); moving only the header is not a supported operation"],
+        "rule": "for RelocatableVec, RelocatableQueue, RelocatableSlotMap, RelocatableFlatMap, RelocatableString, UniqueIndexSet, RobustUniqueIndexSet, RelocatableIndexQueue, RelocatableSafelyOverflowingIndexQueue, RelocatableBitSet, RelocatableCountingBitSet, RelocatableUsedChunkList and mpmc::Container (capacity 1-4): the structure is built by new_uninit + init(bump allocator) inside one block; a random history runs against a std model and after every operation, with probability 1/4, the whole block is byte-copied to a fresh allocation at another in-page offset, the old block is poisoned with 0xAA and freed, and the history continues on the copy (debug, release, ASan, Miri). Non-trivial = a history with at least one relocation; distinct = distinct (structure, history).",
+        "assumptions": ["relocation = byte-for-byte copy of header + payload as a whole (what another process mapping the segment sees); moving only the header is not a supported operation", "the shm pool/bump allocators keep an absolute start address and are only ever used by the process that created the segment; other processes see their results as segment-relative offsets, which C15 checks (in bounds, aligned, disjoint) and C15's growth worker resolves in a second mapping"],
         "floor": (2000, 200),
     },
     "C19": {
